@@ -27,7 +27,7 @@ type C10Notif struct {
 	// 3 (raw only) a hand-built Notification carrying _meta among its additional fields
 	MetaForm int `json:"metaform,omitempty"`
 	Pad      int `json:"pad,omitempty"`
-	Txt      int `json:"txt,omitempty"` // index into c10Texts: awkward text in front of the padding of progress / log messages and custom parameters
+	Txt      int `json:"txt,omitempty"`   // index into c10Texts: awkward text in front of the padding of progress / log messages and custom parameters
 	Delay    int `json:"delay,omitempty"` // 0 none, 1 Gosched, k>=2: k*50us
 }
 
